@@ -30,6 +30,19 @@ Init == i = 1
 ModelOf(r) == [prog |-> r.prog, status |-> r.status, line |-> r.line, fidx |-> r.fidx]
 FileOf(r)  == [exists |-> r.file.exists, stale |-> r.file.stale, lines |-> Norm(r.file.lines)]
 
+\* run order: the features in the order in which they were handed to the runner, as recorded -- the `feature` call-outs
+\* seen by the registered formatter, then (never announced, hence without unsuccessful scenarios) the rest in program
+\* order; inside a feature the document order.  File NAMES play no role in the order.
+FeatOrder(r, m) ==
+   LET fc == SelectSeq(r.calls, LAMBDA c : c.name = "feature" /\ c.el \in Els(m))
+       cf == [k \in DOMAIN fc |-> fc[k].el] IN
+   cf \o SelectSeq(FeatSeq(m), LAMBDA f : f \notin SeqSet(cf))
+RECURSIVE UnsuccFrom(_,_,_)
+UnsuccFrom(m, fo, k) == IF k > Len(fo) THEN <<>>
+                        ELSE SelectSeq(UnsuccSeq(m), LAMBDA s : FeatOf(m, s) = fo[k]) \o UnsuccFrom(m, fo, k + 1)
+ExpectedInRunOrder(r, m) == LocsOf(m, UnsuccFrom(m, FeatOrder(r, m), 1))
+ExactOKr(r, m, file) == UnsuccSeq(m) # <<>> => file.exists /\ ~file.stale /\ file.lines = ExpectedInRunOrder(r, m)
+
 \* what kind of deviation C17.exact saw (attribute of the verdict, for the signature only)
 Deviation(m, file) ==
    LET got == SeqSet(file.lines)
@@ -60,7 +73,7 @@ Verdicts(r) ==
    ELSE LET m == ModelOf(r)
             file == FileOf(r) IN
         (IF r.cfg.dry THEN {}
-         ELSE (IF ~ExactOK(m, file) THEN {ExactVerdict(m, file)} ELSE {})
+         ELSE (IF ~ExactOKr(r, m, file) THEN {ExactVerdict(m, file)} ELSE {})
               \cup (IF ~StaleOK(m, file) THEN {<<"C17.stale_removed", IF r.had_stale THEN "stale" ELSE "fresh", "">>} ELSE {}))
         \cup LoopVerdicts(r, m, file)
 
